@@ -32,7 +32,7 @@ def budget(tier):
 
 def gen(rng, idx, tier):
     nops = rng.choice([1, 1, 2, 2, 3])
-    ids = [rng.choice([1, 2, 3, 7]) for _ in range(nops)]
+    ids = [rng.choice([0, 1, 2, 3, 7, 65535]) for _ in range(nops)]
     ops = []
     for i in range(nops):
         k = rng.randrange(1, 6)
@@ -40,7 +40,7 @@ def gen(rng, idx, tier):
         ncan = rng.choice([0, 1, 1, 2, 3, 12]) if rng.randrange(6) else rng.choice([11, 14])
         cancels = []
         for _ in range(ncan):
-            cid = rng.choice([ids[i], ids[i], ids[i], rng.choice([1, 2, 3, 7, 9]), 99])
+            cid = rng.choice([ids[i], ids[i], ids[i], rng.choice([0, 1, 2, 3, 7, 9]), 99])
             cancels.append({"at": round(rng.random() * (k + 1) * gap * 1.3 - 0.3 * gap, 6), "id": cid})
         cancels.sort(key=lambda c: c["at"])
         ops.append({"kind": rng.choice(["find", "find", "get"]), "id": ids[i], "k": k, "gap": gap, "cancels": cancels,
